@@ -263,7 +263,27 @@ func c06Prefix(r *core.Report) {
 			}
 		}
 		if ds == nil || ds.nObj == nil {
-			r.Violation(rule, rd.Key+"#prefix-decoded", posP(r, rd.Pos()), "the reader does not decode the stored length prefix (binary.Uvarint) to find where the payload starts")
+			// the decode may sit deeper (ReadWithSize -> decodeRecord -> stripLengthPrefix): follow the record buffer
+			var recInRd types.Object
+			for _, n := range stmtNodes(g) {
+				if as, ok := n.Ast.(*ast.AssignStmt); ok && len(as.Lhs) == 1 && len(as.Rhs) == 1 {
+					if c, ok := core.Unparen(as.Rhs[0]).(*ast.CallExpr); ok && core.BuiltinName(info, c) == "make" && len(c.Args) == 2 && core.ObjOf(info, stripConvs(info, c.Args[1])) == types.Object(size) {
+						recInRd = core.ObjOf(info, as.Lhs[0])
+					}
+				}
+			}
+			okAll, where := false, ""
+			if recInRd != nil {
+				okAll, where = recordFramingChecked(p, rd, recInRd, 0)
+			}
+			if where == "" {
+				r.Violation(rule, rd.Key+"#prefix-decoded", posP(r, rd.Pos()), "the reader does not decode the stored length prefix (binary.Uvarint) to find where the payload starts")
+			} else {
+				r.OK(rule, rd.Key+"#prefix-decoded", posP(r, rd.Pos()), "prefix decoded from the stored bytes in "+where)
+				r.Check(okAll, rule, rd.Key+"#prefix-consistent@0", posP(r, rd.Pos()), "every success return is reached only after "+where+" checked prefixLen + payloadLen == len(record) = size",
+					"a success return is not dominated by a check that the decoded prefix (width + payload length) matches the record size")
+				r.Check(okAll, rule, rd.Key+"#payload-starts-after-prefix", posP(r, rd.Pos()), "payload = record[prefixLen:]", "the payload is not sliced at the decoded prefix width")
+			}
 		} else {
 			r.OK(rule, rd.Key+"#prefix-decoded", pos(r, ds.node.Ast), "prefix decoded from the stored bytes")
 			di := ds.fn.Pkg.TypesInfo
@@ -489,7 +509,10 @@ func c06Drain(r *core.Report) {
 	}
 	// drain constructs: (a) a call of a local closure / function whose body ranges over the container and flushes,
 	// (b) the exit edge of an inline range over the container whose body flushes
-	isDrainBody := func(body ast.Node, inf *types.Info) bool {
+	origContainer := container
+	var isDrainBodyFor func(body ast.Node, inf *types.Info, container types.Object) bool
+	isDrainBody := func(body ast.Node, inf *types.Info) bool { return isDrainBodyFor(body, inf, origContainer) }
+	isDrainBodyFor = func(body ast.Node, inf *types.Info, container types.Object) bool {
 		ok := false
 		// all parked batches handed to the flusher in one call: flushKVs(container...)
 		for _, c := range core.CallsIn(body, true) {
@@ -523,6 +546,16 @@ func c06Drain(r *core.Report) {
 						}
 					}
 				}
+				// (c) a method / function of the package that is handed the container and flushes every element of it
+				if fo := core.Callee(info, c); fo != nil {
+					if h := p.ByObj[fo.Origin()]; h != nil && h.Body != nil && h.Pkg == f.Pkg {
+						for ai, a := range c.Args {
+							if core.ObjOf(info, a) == origContainer && h.ParamObj(ai) != nil && isDrainBodyFor(h.Body, h.Pkg.TypesInfo, h.ParamObj(ai)) {
+								drain[n] = true
+							}
+						}
+					}
+				}
 			}
 		case core.KEdge:
 			if !n.Truth && n.Loop != nil {
@@ -546,6 +579,18 @@ func c06Drain(r *core.Report) {
 			return true
 		}
 		c, ok := core.Unparen(as.Rhs[0]).(*ast.CallExpr)
+		if ok && core.BuiltinName(info, c) != "make" {
+			// a constructor of the package that returns the made slice: newParkedBuffers()
+			if fo := core.Callee(info, c); fo != nil {
+				if h := p.ByObj[fo.Origin()]; h != nil && h.Body != nil && len(h.Body.List) == 1 {
+					if rt, isRet := h.Body.List[0].(*ast.ReturnStmt); isRet && len(rt.Results) == 1 {
+						if mc, isC := core.Unparen(rt.Results[0]).(*ast.CallExpr); isC && core.BuiltinName(h.Pkg.TypesInfo, mc) == "make" {
+							c = mc
+						}
+					}
+				}
+			}
+		}
 		if !ok || core.BuiltinName(info, c) != "make" || len(c.Args) < 2 {
 			return true
 		}
@@ -1126,4 +1171,143 @@ func pkgScope(p *core.Prog, f *core.Func, maxDepth int) []*core.Func {
 	}
 	add(f, 0)
 	return scope
+}
+
+// recordFramingChecked: every success return of fn is reached only after the uvarint prefix of the record rec (a local or
+// parameter of fn holding the whole record) was decoded and `width + payload length == len(rec)` was checked, with the
+// payload taken at rec[width:] - in fn itself, or in a helper that fn hands rec to (checked error, or tail call).
+// Returns the key of the function that decodes ("" when none was found).
+func recordFramingChecked(p *core.Prog, fn *core.Func, rec types.Object, depth int) (bool, string) {
+	if depth > 3 || fn.Body == nil {
+		return false, ""
+	}
+	info := fn.Pkg.TypesInfo
+	g := p.Graph(fn)
+	// decode in fn itself
+	var nObj, plObj types.Object
+	for _, n := range stmtNodes(g) {
+		as, ok := n.Ast.(*ast.AssignStmt)
+		if !ok || len(as.Rhs) != 1 || len(as.Lhs) != 2 {
+			continue
+		}
+		if c, ok := core.Unparen(as.Rhs[0]).(*ast.CallExpr); ok && core.CalleeName(info, c) == "encoding/binary.Uvarint" && len(c.Args) == 1 && core.ObjOf(info, c.Args[0]) == rec {
+			plObj, nObj = core.ObjOf(info, as.Lhs[0]), core.ObjOf(info, as.Lhs[1])
+		}
+	}
+	if nObj != nil {
+		// size references: len(rec) or locals defined from it
+		sizeObjs := map[types.Object]bool{}
+		isSizeRef := func(e ast.Expr) bool {
+			found := false
+			ast.Inspect(e, func(m ast.Node) bool {
+				switch x := m.(type) {
+				case *ast.Ident:
+					if o := info.Uses[x]; o != nil && sizeObjs[o] {
+						found = true
+					}
+				case *ast.CallExpr:
+					if core.BuiltinName(info, x) == "len" && len(x.Args) == 1 && core.ObjOf(info, x.Args[0]) == rec {
+						found = true
+					}
+				}
+				return true
+			})
+			return found
+		}
+		ast.Inspect(fn.Body, func(m ast.Node) bool {
+			if as, ok := m.(*ast.AssignStmt); ok && len(as.Lhs) == len(as.Rhs) {
+				for i, l := range as.Lhs {
+					if o := core.ObjOf(info, l); o != nil && singleDef(fn, o) != nil && isSizeRef(as.Rhs[i]) {
+						if _, isBin := stripConvs(info, as.Rhs[i]).(*ast.BinaryExpr); !isBin {
+							sizeObjs[o] = true
+						}
+					}
+				}
+			}
+			return true
+		})
+		all, nret := true, 0
+		for _, rn := range g.Returns() {
+			if definitelyErrorReturn(g, fn, rn) {
+				continue
+			}
+			nret++
+			okR := false
+			for _, fc := range g.FactsAt(rn) {
+				be, isB := core.Unparen(fc.Expr).(*ast.BinaryExpr)
+				if fc.Tag != nil || !isB || !((be.Op == token.NEQ && !fc.Truth) || (be.Op == token.EQL && fc.Truth)) {
+					continue
+				}
+				if core.Mentions(info, fc.Expr, nObj) && core.Mentions(info, fc.Expr, plObj) && isSizeRef(fc.Expr) {
+					okR = true
+				}
+			}
+			all = all && okR
+		}
+		okSlice := false
+		ast.Inspect(fn.Body, func(m ast.Node) bool {
+			if se, ok := m.(*ast.SliceExpr); ok && se.Low != nil && core.ObjOf(info, se.Low) == nObj && core.ObjOf(info, se.X) == rec {
+				okSlice = true
+			}
+			return true
+		})
+		return all && nret > 0 && okSlice, fn.Key
+	}
+	// delegated: every success return is dominated by the nil error of a helper that gets rec, or is a tail call to one
+	where := ""
+	checked := func(c *ast.CallExpr) bool {
+		fo := core.Callee(info, c)
+		if fo == nil {
+			return false
+		}
+		h := p.ByObj[fo.Origin()]
+		if h == nil || h.Body == nil {
+			return false
+		}
+		for ai, a := range c.Args {
+			if core.ObjOf(info, a) == rec && h.ParamObj(ai) != nil {
+				if ok, w := recordFramingChecked(p, h, h.ParamObj(ai), depth+1); w != "" {
+					where = w
+					return ok
+				}
+			}
+		}
+		return false
+	}
+	all, nret := true, 0
+	for _, rn := range g.Returns() {
+		if definitelyErrorReturn(g, fn, rn) {
+			continue
+		}
+		nret++
+		okR := false
+		if res := returnResults(rn); len(res) == 1 {
+			if c, isC := core.Unparen(res[0]).(*ast.CallExpr); isC && checked(c) {
+				okR = true
+			}
+		}
+		if !okR {
+			for _, fc := range g.FactsAt(rn) {
+				x, isNil, isCmp := core.NilCompare(info, fc.Expr)
+				if !isCmp || isNil != fc.Truth || fc.Edge == nil {
+					continue
+				}
+				eo := core.ObjOf(info, x)
+				if eo == nil || !core.IsErrorType(eo.Type()) {
+					continue
+				}
+				for _, dn := range stmtNodes(g) {
+					as, isAs := dn.Ast.(*ast.AssignStmt)
+					if !isAs || len(as.Rhs) != 1 || core.ObjOf(info, as.Lhs[len(as.Lhs)-1]) != eo || !g.Dominates(dn, fc.Edge) {
+						continue
+					}
+					if c, isC := core.Unparen(as.Rhs[0]).(*ast.CallExpr); isC && checked(c) {
+						okR = true
+					}
+				}
+			}
+		}
+		all = all && okR
+	}
+	return all && nret > 0, where
 }
